@@ -179,7 +179,7 @@ def gen_local_study(rng, shape=None, scenario=None, cancel=None, nmax=6):
         steps[rng.randrange(len(steps))]["cancel"] = True
     return {"shape": shape, "scenario": scenario, "steps": steps, "params": params, "attempts": attempts,
             "throttle": rng.choice([0, 0, 0, 1, 2, 3]), "rlimit": rng.choice([0, 1, 2]),
-            "hashws": rng.random() < 0.4, "usetmp": rng.random() < 0.25,
+            "hashws": rng.random() < 0.4, "usetmp": rng.random() < 0.25, "ospell": pick_ospell(rng),
             "cancel": cancel or "no"}
 
 
@@ -271,8 +271,45 @@ def spec_text(case, d):
 # ----------------------------------------------------------------------------
 # running one study and observing it from the outside
 # ----------------------------------------------------------------------------
+OUT_SPELLINGS = ["abs", "rel", "dot", "slash", "parent", "nested"]
+
+
+def spell_out(case, d, sub="out"):
+    """How the study directory d/out and the specification d/spec.yaml are SPELLED on the command
+    line, and the cwd the command is started in (case['ospell']; the directory itself never moves):
+      abs     -o <d>/out        cwd d          rel     -o out            cwd d
+      dot     -o ./out          cwd d          slash   -o out/           cwd d
+      parent  -o ../out         cwd d/cw       (spec ../spec.yaml)
+      nested  -o <name of d>/out  cwd parent of d  (spec <name of d>/spec.yaml)
+    -> (out argument, spec argument, cwd)"""
+    how = case.get("ospell", "abs")
+    out = os.path.join(d, sub)
+    if how == "rel":
+        return sub, "spec.yaml", d
+    if how == "dot":
+        return "./" + sub, "./spec.yaml", d
+    if how == "slash":
+        return sub + os.sep, "spec.yaml", d
+    if how == "parent":
+        cw = os.path.join(d, "cw")
+        os.makedirs(cw, exist_ok=True)
+        return os.path.join("..", sub), os.path.join("..", "spec.yaml"), cw
+    if how == "nested":
+        b = os.path.basename(d)
+        return os.path.join(b, sub), os.path.join(b, "spec.yaml"), os.path.dirname(d)
+    return out, "spec.yaml", d
+
+
+def pick_ospell(rng):
+    return "abs" if rng.random() < 0.35 else rng.choice(OUT_SPELLINGS[1:])
+
+
 def flag_args(case):
     return (["--hashws"] if case.get("hashws") else []) + (["--usetmp"] if case.get("usetmp") else [])
+
+
+def flags_text(case):
+    return " ".join(flag_args(case) + ["-o:" + case.get("ospell", "abs")])
 
 
 def run_study_case(job):
@@ -288,22 +325,24 @@ def run_study_case(job):
     env = {"E2E_MARK_LOG": os.path.join(d, "marks.log"), "E2E_POLL_SLEEP": str(POLL_SLEEP),
            "E2E_STUDY_DIR": out, "E2E_SNAP_DIR": os.path.join(d, "snap"), "E2E_MAX_POLLS": str(case.get("max_polls", 80))}
     log = os.path.join(d, "run.log")
+    oarg, sarg, cwd = spell_out(case, d)
     common_args = ["-s", POLL_SLEEP, "--attempts", case["attempts"], "--rlimit", case["rlimit"],
-                   "--throttle", case["throttle"]] + flag_args(case) + ["-o", out, "spec.yaml"]
+                   "--throttle", case["throttle"]] + flag_args(case) + ["-o", oarg, sarg]
     res = {"mode": mode, "pre": []}
     if mode == "fg":
-        rc, tail = launch("maestro", ["run", "-fg", "-y"] + common_args, d, env, logfile=log, timeout=RUN_TIMEOUT)
+        rc, tail = launch("maestro", ["run", "-fg", "-y"] + common_args, cwd, env, logfile=log, timeout=RUN_TIMEOUT)
     else:
-        rc0, tail0 = launch("maestro", ["run", "-n"] + common_args, d, {}, logfile=log)
+        rc0, tail0 = launch("maestro", ["run", "-n"] + common_args, cwd, {}, logfile=log)
         res["pre"].append(["maestro run -n", rc0])
         if mode == "precancel":
-            rc1, tail1 = launch("maestro", ["cancel", out], d, {}, stdin_text="y\n", logfile=log)
+            rc1, tail1 = launch("maestro", ["cancel", oarg], cwd, {}, stdin_text="y\n", logfile=log)
             res["pre"].append(["maestro cancel", rc1])
             res["lock_after_cancel"] = os.path.exists(os.path.join(out, ".cancel.lock"))
         if rc0 != 0:
             rc, tail = rc0, tail0
         else:
-            rc, tail = launch("conductor", ["-t", POLL_SLEEP, out], d, env, logfile=log, timeout=RUN_TIMEOUT)
+            # the detached conductor inherits the cwd of `maestro run` and gets the directory as spelled there
+            rc, tail = launch("conductor", ["-t", POLL_SLEEP, oarg], cwd, env, logfile=log, timeout=RUN_TIMEOUT)
     res["rc"] = rc
     res["tail"] = tail[-1500:]
     return res
@@ -427,13 +466,13 @@ def translate(case, o):
     if "problem" in o:
         if o.get("rc") == 124:
             return None, ["the study did not terminate (HANG: sub-process killed after %d s; flags:%s)%s"
-                          % (RUN_TIMEOUT, " ".join(flag_args(case)) or " none",
+                          % (RUN_TIMEOUT, " " + flags_text(case),
                              "; it has a step writing %d bytes to one of its streams" % CHATTY_BYTES
                              if any(s_.get("chatty") for s_ in case["steps"]) else "")], []
         if o.get("rc") not in STATUS_OF_RC:
             # the command line itself failed on a legal study: no verdict, nothing to translate
             return None, ["`maestro run`/`conductor` exited %r (no study verdict) on a legal study (flags:%s); output tail: %s"
-                          % (o.get("rc"), " ".join(flag_args(case)) or " none", o.get("tail", "")[-700:])], []
+                          % (o.get("rc"), " " + flags_text(case), o.get("tail", "")[-700:])], []
         return None, viol, [o["problem"]]
     inst = o["inst"]
     n = len(inst)
@@ -580,7 +619,7 @@ def translate(case, o):
         started = [e["step"] for p in o["marks"] for e in p if e["t"] == "S"]
         viol.append("the study did not terminate (%s; %d instances; flags:%s); last step started: %s%s"
                     % ("HANG: sub-process killed after %d s" % RUN_TIMEOUT if o["rc"] == 124 else "poll budget of %d exhausted" % len(o["marks"]),
-                       len(inst), " ".join(flag_args(case)) or " none", started[-1] if started else "none",
+                       len(inst), " " + flags_text(case), started[-1] if started else "none",
                        " (a step writing %d bytes to one of its streams)" % CHATTY_BYTES
                        if any(s_.get("chatty") for s_ in case["steps"]) else ""))
         return None, viol, prob
@@ -702,6 +741,7 @@ def distribution(summaries):
         dist["attempts:%d" % c["attempts"]] += 1
         dist["throttle:%d" % c["throttle"]] += 1
         dist["flags:%s" % (" ".join(flag_args(c)) or "none")] += 1
+        dist["out_spelled:" + c.get("ospell", "abs")] += 1
         for st_ in c["steps"]:
             if "end" in st_:
                 dist["end:" + st_["end"]] += 1
@@ -718,7 +758,7 @@ def distribution(summaries):
 
 
 def case_key(case, mode=""):
-    return json.dumps([case["steps"], case["params"], case["attempts"], case["throttle"], flag_args(case), mode], sort_keys=True)
+    return json.dumps([case["steps"], case["params"], case["attempts"], case["throttle"], flag_args(case), case.get("ospell", "abs"), mode], sort_keys=True)
 
 
 # ----------------------------------------------------------------------------
@@ -869,7 +909,7 @@ def gen_scripted_study(rng, shape=None, cancel=False, qfault=False):
             st["use"] = ["P"] if rng.random() < 0.7 else []
     return {"kind": "scripted", "shape": shape, "scenario": "scripted", "steps": steps, "params": params,
             "attempts": rng.choice([1, 2, 3]), "throttle": rng.choice([0, 0, 1, 2]), "rlimit": rlimit,
-            "hashws": bool(params) and rng.random() < 0.6, "usetmp": rng.random() < 0.3,
+            "hashws": bool(params) and rng.random() < 0.6, "usetmp": rng.random() < 0.3, "ospell": pick_ospell(rng),
             "qcodes": qcodes, "cancel": "step" if cancel else "no"}
     # (callers may set case["reap_tmp"]: with --usetmp the temp script directory is removed from outside
     #  at every status query, as a /tmp reaper would)
@@ -920,15 +960,16 @@ def run_scripted_case(job):
     env = {"E2E_MARK_LOG": os.path.join(d, "marks.log"), "E2E_POLL_SLEEP": str(POLL_SLEEP), "E2E_STUDY_DIR": out,
            "E2E_SNAP_DIR": os.path.join(d, "snap"), "E2E_MAX_POLLS": "120", "E2E_SCRIPTED": os.path.join(d, "script.json")}
     log = os.path.join(d, "run.log")
+    oarg, sarg, cwd = spell_out(case, d)
     args = ["-s", POLL_SLEEP, "--attempts", case["attempts"], "--rlimit", case["rlimit"], "--throttle", case["throttle"]] + \
-        flag_args(case) + ["-o", out, "spec.yaml"]
+        flag_args(case) + ["-o", oarg, sarg]
     res = {"mode": mode, "pre": []}
     if mode == "fg":
-        rc, tail = launch("maestro", ["run", "-fg", "-y"] + args, d, env, logfile=log)
+        rc, tail = launch("maestro", ["run", "-fg", "-y"] + args, cwd, env, logfile=log)
     else:
-        rc0, tail0 = launch("maestro", ["run", "-n"] + args, d, {"E2E_SCRIPTED": env["E2E_SCRIPTED"]}, logfile=log)
+        rc0, tail0 = launch("maestro", ["run", "-n"] + args, cwd, {"E2E_SCRIPTED": env["E2E_SCRIPTED"]}, logfile=log)
         res["pre"].append(["maestro run -n", rc0])
-        rc, tail = (rc0, tail0) if rc0 != 0 else launch("conductor", ["-t", POLL_SLEEP, out], d, env, logfile=log)
+        rc, tail = (rc0, tail0) if rc0 != 0 else launch("conductor", ["-t", POLL_SLEEP, oarg], cwd, env, logfile=log)
     res["rc"], res["tail"] = rc, tail[-1500:]
     return res
 
@@ -1078,7 +1119,7 @@ def evaluate_scripted(ck, tag, items, pidnum=5, clause=None):
                "attempts_run": sum(1 for p in (ecase["polls"] if ecase else []) for e in p["events"] if e[0] == "submit"),
                "impl": None if ecase is None else ecase["polls"]}
         summ.append(rec)
-        flags = " ".join(flag_args(it["case"])) or "none"
+        flags = flags_text(it["case"])
         exp = it["case"].get("expect_abort")
         if exp:
             log_ = []
@@ -1183,7 +1224,7 @@ def gen_config_study(rng, focus):
     return {"kind": "scripted", "focus": focus, "shape": "templates:%d" % ntempl, "scenario": "config-" + focus,
             "steps": steps, "params": [{"key": "P", "values": values}], "attempts": rng.choice([1, 2, 3]),
             "throttle": T, "rlimit": R, "hashws": rng.random() < 0.5, "usetmp": rng.random() < 0.3,
-            "qcodes": ["OK"], "cancel": "no"}
+            "ospell": pick_ospell(rng), "qcodes": ["OK"], "cancel": "no"}
 
 
 def config_cases(rng, n, focus):
